@@ -149,3 +149,34 @@ def run(cfg, ctx):
             ctx._record(f"IND {nm} (CTI found; inductive argument not closed, BMC verdict stands)", "induction", "cti", dt)
         else:
             ctx._record(f"IND {nm} from any state satisfying the invariant", "obligation", r, dt)
+
+
+def _canary_no_addr_forward():
+    # BasicFifo.read forgets to move the read port to the next element
+    import transactron.lib.fifo as fifo
+    import inspect, textwrap
+    src = inspect.getsource(fifo.BasicFifo.elaborate).replace("m.d.comb += data_rdport.addr.eq(ret.new_start_idx)", "pass")
+    ns = {}
+    exec(textwrap.dedent(src), fifo.__dict__, ns)
+    fifo.BasicFifo.elaborate = ns["elaborate"]
+
+
+def _canary_mod_add_wrap():
+    import transactron.utils.amaranth_ext.functions as F
+    import transactron.lib.allocators as A
+    from amaranth import Value
+    from amaranth.hdl._ast import SwitchValue
+
+    def mod_add(sig, mod, incr, max_incr):
+        sig = Value.cast(sig)
+        incr = Value.cast(incr)
+        if not (mod & (mod - 1)):
+            return (sig + incr) & (mod - 1)
+        return SwitchValue(sig + incr, [(mod + i + 1, i) for i in range(0, max_incr)] + [(None, sig + incr)])
+
+    F.mod_add = mod_add
+    A.mod_add = mod_add
+
+
+CANARIES = [("BasicFifo.read does not advance the read port", _canary_no_addr_forward),
+            ("mod_add wrap table off by one (non power-of-two depth)", _canary_mod_add_wrap)]
